@@ -205,10 +205,12 @@ def zero_mask(zspecs, attrs, shape):
 
 @st.composite
 def est_cases(draw, min_attrs=2, max_attrs=4, max_size=4, cap=256, min_m=0, max_m=5, zeros=False, iters=(1, 2, 3, 10, 50),
-              solvers=('MD', 'RDA', 'IG'), totals=(1.0, 10, 1000.0, 37.5, None, None), kinds=None, allow_empty_zero=False, min_size=1):
+              solvers=('MD', 'RDA', 'IG'), totals=(1.0, 10, 1000.0, 37.5, None, None), kinds=None, allow_empty_zero=False, min_size=1, long_cycle=True):
     dom = draw(gen.domains(min_attrs, max_attrs, min_size, max_size, cap=cap))
     attrs, shape = dom['attrs'], dom['shape']
     meas = draw(measurement_specs(attrs, shape, min_m, max_m, max_proj=3, max_cells=64, kinds=kinds)) if max_m > 0 else []
+    if max_m >= 3 and len(attrs) >= 3 and draw(st.integers(0, 3)) == 0:
+        meas = draw(hub_measurement_specs(attrs, shape, kinds))      # tree of pairwise projections (+ singles)
     witness = [draw(st.integers(0, s - 1)) for s in shape]
     case = {'domain': dom, 'meas': meas, 'data_seed': draw(st.integers(0, 2**31 - 1)),
             'total': draw(st.sampled_from(list(totals))), 'true_total': draw(st.sampled_from([1.0, 20.0, 500.0])),
@@ -217,6 +219,22 @@ def est_cases(draw, min_attrs=2, max_attrs=4, max_size=4, cap=256, min_m=0, max_
             'elim': draw(st.sampled_from(['none', 'none', 'perm']))}
     if case['elim'] == 'perm':
         case['elim_perm'] = list(draw(st.permutations(attrs)))
+    if long_cycle and draw(st.integers(0, 5)) == 0:
+        # long chordless cycle of pairwise measurements (needs second-order fill-in in the junction tree)
+        n = draw(st.integers(5, 6))
+        names = list(draw(st.permutations(gen.NAMES[:n])))
+        case['domain'] = {'attrs': names, 'shape': [2] * n}
+        cyc = list(draw(st.permutations(names)))
+        meas = []
+        for i in range(n):
+            e = [cyc[i], cyc[(i + 1) % n]]
+            meas.append({'proj': e if draw(st.booleans()) else e[::-1],
+                         'q': {'kind': draw(st.sampled_from(['none', 'identity', 'dense'])), 'rows': 4, 'seed': draw(st.integers(0, 10**6)), 'c': 2.0},
+                         'noise': draw(st.sampled_from([1.0, 0.5, 2.0])), 'yseed': draw(st.integers(0, 10**6)), 'noise_mult': 3.0})
+        case['meas'] = meas
+        case['witness'] = [0] * n
+        case['elim'] = 'none'
+        attrs, shape, witness = names, [2] * n, case['witness']
     if zeros and draw(st.booleans()):
         case['zeros'] = draw(zero_specs(attrs, shape, witness, allow_empty_zero))
     if case['solver'] == 'MD' and draw(st.integers(0, 4)) == 0:
